@@ -157,7 +157,7 @@ def run(ctx):
     depth2 = 5 if ctx.quick else 8
     ex2 = H.Explorer(ctx, _worker, PREFIX, ALPHABET2, depth2).run(on_result)
     ctx.note(f"[C28] two run ids: depth={depth2} states={ex2.states} transitions={ex2.transitions} checks={tot}")
-    depth3 = 6 if ctx.quick else 8
+    depth3 = 6 if ctx.quick else 7
     ex3 = H.Explorer(ctx, _worker, PREFIX, ALPHABET3, depth3).run(on_result)
     ctx.note(f"[C28] with kill: depth={depth3} states={ex3.states} transitions={ex3.transitions} checks={tot}")
     if not (tot["a"] and tot["b"] and tot["c"]):
